@@ -26,6 +26,8 @@ def MAXOBJ : Nat := 32
 /-- the harness connects to at most this many addresses per request -/
 def MAXADDR : Nat := 8
 def MAXPATH : Nat := 256
+/-- … and with host names of at most this many characters (`hqs_start`) -/
+def MAXHOST : Nat := 256
 
 /-- the three one-shot requests on a descriptor -/
 inductive NetKind where
@@ -48,6 +50,8 @@ inductive Op where
   | rel (k : RelKind) (h : Nat)
   | ncStart (h : Nat) (addrs : List AddrOutcome) (timeo : Option Int)
   | hqStart (h : Nat) (addrs : List AddrOutcome) (pathlen : Nat)
+  /-- the same through `https_request` with a host name of `hostlen` characters (`strdup` first) -/
+  | hqsStart (h : Nat) (addrs : List AddrOutcome) (pathlen hostlen : Nat)
   deriving Repr
 
 structure S where
@@ -155,6 +159,11 @@ def callOf (s : S) : Op → Option AllocFail.Op
       (if (look s.http h).isSome || addrs.length > MAXADDR || pl > MAXPATH then none
        else some (.http addrs (headLen pl) (freshFd s.w)))
     else none
+  | .hqsStart h addrs pl hl =>
+    if h < MAXOBJ then
+      (if (look s.http h).isSome || addrs.length > MAXADDR || pl > MAXPATH || hl > MAXHOST then none
+       else some (.https addrs (headLen pl) (freshFd s.w) hl))
+    else none
 
 /-- `AllocFail.stepR` together with the object a start / init call returns (`call_eq_stepR`) -/
 def call (w : World) : AllocFail.Op → Rc × Option Nat × World
@@ -167,6 +176,8 @@ def call (w : World) : AllocFail.Op → Rc × Option Nat × World
   | .nbwInit fd => match netbufWriteInit w fd with | (some c, w') => (.ok, some c, w') | (none, w') => (.fail, none, w')
   | .http addrs headlen s =>
     match httpRequest w addrs headlen s with | (some c, w') => (.ok, some c, w') | (none, w') => (.fail, none, w')
+  | .https addrs headlen s hostlen =>
+    match httpsRequest w addrs headlen s hostlen with | (some c, w') => (.ok, some c, w') | (none, w') => (.fail, none, w')
   | op => match stepR w op with | (rc, w') => (rc, none, w')
 
 /-! ## typed output -/
@@ -235,6 +246,7 @@ def book (s : S) (op : Op) (o : Option Nat) (ok : Bool) : S :=
   | .nbwInit h _, some c => { s with nbw := (h, c) :: s.nbw }
   | .ncStart h _ _, some c => { s with conn := (h, c) :: s.conn }
   | .hqStart h _ _, some c => { s with http := (h, c) :: s.http }
+  | .hqsStart h _ _ _, some c => { s with http := (h, c) :: s.http }
   | .nbwReserve h len, _ => if ok then { s with nbwResv := (h, len) :: drop s.nbwResv h } else s
   | .rel .nrCancel h, _ => { s with rd := drop s.rd h }
   | .rel .nwCancel h, _ => { s with wr := drop s.wr h }
